@@ -12,6 +12,9 @@ import re
 import tablib
 
 UUID4 = re.compile(r"^[0-9a-f]{8}-[0-9a-f]{4}-4[0-9a-f]{3}-[89ab][0-9a-f]{3}-[0-9a-f]{12}$")
+# the property asks for a WELL-FORMED UUID (canonical text form, RFC 4122 variant); which version the compiler draws is
+# its own business (it draws version 4 today, which is what the canonicalisers above rely on to tell invented ids apart)
+UUID_ANY = re.compile(r"^[0-9a-f]{8}-[0-9a-f]{4}-[1-8][0-9a-f]{3}-[89ab][0-9a-f]{3}-[0-9a-f]{12}$")
 
 
 class LogCapture(logging.Handler):
@@ -235,12 +238,64 @@ def document_checks(doc: dict, given_ids: set[str]) -> list[str]:
         if not isinstance(u, str) or not u:
             problems.append(f"missing identifier at {path}")
             continue
-        if u not in given_ids and not UUID4.match(u):
+        if u not in given_ids and not UUID_ANY.match(u):
             problems.append(f"invented identifier at {path} is not a well-formed UUID: {u!r}")
         if u in seen:
             problems.append(f"identifier {u} used for two objects: {seen[u]} and {path}")
         seen[u] = path
+    # groups and flows are named objects that are referred to from many places: one identifier names ONE of them
+    # (and none of the objects above, unless it is that flow itself)
+    named = {}
+    for kind, name, u, path in named_refs(doc):
+        if not isinstance(u, str) or not u:
+            continue
+        if u not in given_ids and not UUID_ANY.match(u):
+            problems.append(f"invented identifier of {kind} {name!r} at {path} is not a well-formed UUID: {u!r}")
+        named.setdefault(u, {})[(kind, name)] = path
+        if u in seen and not (kind == "flow" and seen[u].endswith("/uuid") and seen[u].startswith("/flows/") and seen[u].count("/") == 3):
+            problems.append(f"identifier {u} of {kind} {name!r} ({path}) is also the identifier of the object at {seen[u]}")
+    for u, who in named.items():
+        if len(who) > 1:
+            problems.append(f"identifier {u} used for {len(who)} different named objects: " + ", ".join(f"{k} {n!r}" for k, n in sorted(who)))
     return problems
+
+
+def named_refs(doc: dict):
+    """(kind, name, uuid, json-pointer) of every reference to a group or a flow in a container"""
+    out = []
+    for gi, g in enumerate(doc.get("groups", []) or []):
+        out.append(("group", g.get("name"), g.get("uuid"), f"/groups/{gi}"))
+    for fi, f in enumerate(doc.get("flows", [])):
+        out.append(("flow", f.get("name"), f.get("uuid"), f"/flows/{fi}"))
+        for ni, n in enumerate(f.get("nodes", [])):
+            base = f"/flows/{fi}/nodes/{ni}"
+            for ai, a in enumerate(n.get("actions", [])):
+                for gi, g in enumerate(a.get("groups", []) or []):
+                    if isinstance(g, dict):
+                        out.append(("group", g.get("name"), g.get("uuid"), f"{base}/actions/{ai}/groups/{gi}"))
+                if a.get("type") == "enter_flow" and isinstance(a.get("flow"), dict):
+                    out.append(("flow", a["flow"].get("name"), a["flow"].get("uuid"), f"{base}/actions/{ai}/flow"))
+            r = n.get("router") or {}
+            for ci, c in enumerate(r.get("cases", []) or []):
+                args = c.get("arguments") or []
+                if c.get("type") == "has_group" and len(args) >= 2:
+                    out.append(("group", args[1], args[0], f"{base}/router/cases/{ci}"))
+    for ci, c in enumerate(doc.get("campaigns", []) or []):
+        g = c.get("group") or {}
+        out.append(("group", g.get("name"), g.get("uuid"), f"/campaigns/{ci}/group"))
+        for ei, e in enumerate(c.get("events", []) or []):
+            fl = e.get("flow") or {}
+            if fl.get("name"):
+                out.append(("flow", fl.get("name"), fl.get("uuid"), f"/campaigns/{ci}/events/{ei}/flow"))
+    for ti, t in enumerate(doc.get("triggers", []) or []):
+        fl = t.get("flow") or {}
+        if fl.get("name"):
+            out.append(("flow", fl.get("name"), fl.get("uuid"), f"/triggers/{ti}/flow"))
+        for key in ("groups", "exclude_groups"):
+            for gi, g in enumerate(t.get(key, []) or []):
+                if isinstance(g, dict):
+                    out.append(("group", g.get("name"), g.get("uuid"), f"/triggers/{ti}/{key}/{gi}"))
+    return out
 
 
 def rename_uuids_by_first_occurrence(doc, keep: set[str] = frozenset()):
